@@ -99,6 +99,16 @@ def p1_case(part, row, case):
             labels.append(pool[sym][k % len(pool[sym])] + ("" if k < len(pool[sym]) else str(k)))
             seen_l[sym] = k + 1
     c = xtal.make_crystal(row["number"], row["choice"], cell, asym["symbols"], asym["frac"], occupation=occ, labels=labels)
+    if case.get("provenance") == "deposited-cif":
+        # the crystal is read from a CIF that also carries the usual deposited metadata (formula weight, density, Z, temperature ...):
+        # what the crystal reports must still be a function of cell, group and sites
+        from chmpy.crystal import Crystal as _C
+
+        extra = ["_exptl_crystal_density_diffrn 1.271", "_exptl_crystal_density_meas 1.27", "_chemical_formula_weight 31.00", "_cell_formula_units_Z 4",
+                 "_cell_volume 1234.5", "_cell_measurement_temperature 100", "_exptl_crystal_F_000 999"]
+        txt = c.to_cif_string().rstrip("\n").split("\n")
+        at = next(i for i, l in enumerate(txt) if l.strip().startswith("loop_"))
+        c = _C.from_cif_string("\n".join(txt[:at] + extra + txt[at:]) + "\n")
     if rotated:
         from chmpy.crystal import Crystal, UnitCell
 
@@ -111,7 +121,7 @@ def p1_case(part, row, case):
             part.ev()
             part.tr()
             cc = dict(case, sizes=[list(size)], route=route)
-            tag = "%s:%s%s" % (route, "rotated-frame" if rotated else "standard-frame", ":partial-occupancy" if occ is not None else ":misleading-labels" if labels else "")
+            tag = "%s:%s%s" % (route, "rotated-frame" if rotated else "standard-frame", ":partial-occupancy" if occ is not None else ":misleading-labels" if labels else ":deposited-cif" if case.get("provenance") else "")
             try:
                 cfresh = xtal.fresh_from_state(xtal.public_state(c))
                 p = cfresh.as_P1_supercell(size) if route == "as_P1_supercell" else cfresh.to_translational_symmetry(supercell=size)
@@ -231,6 +241,10 @@ def p1_worker(part, job, seed, thorough):
         case = {"number": row["number"], "choice": row["choice"], "zkind": zk, "centre": [0.137, 0.289, 0.611], "orient": 1, "seed": seed,
                 "sizes": [[1, 1, 1], [2, 1, 3]], "occ": o}
         p1_case(part, row, case)
+    # deviation: the crystal comes from a CIF with deposited metadata
+    case = {"number": row["number"], "choice": row["choice"], "zkind": "1", "centre": [0.137, 0.289, 0.611], "orient": 1, "seed": seed,
+            "sizes": [[1, 1, 1], [1, 2, 1]], "provenance": "deposited-cif"}
+    p1_case(part, row, case)
     # deviation: user labels that spell other elements than the sites hold
     case = {"number": row["number"], "choice": row["choice"], "zkind": "2diff", "centre": [0.137, 0.289, 0.611], "orient": 1, "seed": seed,
             "sizes": [[1, 1, 1], [2, 1, 1]], "labels": "misleading"}
